@@ -182,6 +182,8 @@ func (r *c03Rig) point(e *enc16, a, b uint16, f uint8) bool {
 	prev.AF.Lo = ^f
 	c := &r.cpus[r.cur]
 	r.c = c
+	// what follows the instruction in memory varies with the operands (it must not matter)
+	r.m.m[0x0100+len(e.code)] = uint8(a) ^ uint8(b>>8) ^ f
 	c.States = r.base
 	c.AF.Lo = f
 	set16(c, e.src, b)
